@@ -1063,6 +1063,98 @@ def _patterns_case(k):
     return Case("%d multipliers" % k, build, crosscheck=False)
 
 
+# ---------------------------------------------------------------------------- [OPTIONS]
+
+_OPT_FLOATS_H = ("specific_gravity", "viscosity", "accuracy", "checkfreq", "maxcheck", "headerror", "flowchange", "damplimit", "demand_multiplier",
+                 "pressure_exponent", "emitter_exponent")
+_OPT_FLOATS_Q = ("diffusivity", "tolerance")
+
+
+def _options_roundtrip(inpw, inpr, wnw, version):
+    f = FileStub()
+    InpFile._write_options(inpw, f, wnw, version)
+    inpr.sections["[OPTIONS]"] = [(i + 1, ln) for i, ln in enumerate(f.lines)]
+    InpFile._read_options(inpr)
+    return len(f.lines)
+
+
+def _options_case(units, version, demand_model, unbalanced, quality):
+    def build(cx):
+        from contracts.c17_units import hyd_spec
+        from wntr.epanet.util import HydParam
+        hv = {k: cx.real(k) for k in _OPT_FLOATS_H}
+        qv = {k: cx.real(k) for k in _OPT_FLOATS_Q}
+        trials = cx.int("trials")
+        pmin, preq = cx.real("minimum_pressure"), cx.real("required_pressure")
+        pat = cx.name("default_pattern")
+        ub, ubv = unbalanced
+        qpar, qextra = quality
+        hw = _Bag(headloss="H-W", trials=trials, unbalanced=ub, unbalanced_value=ubv, pattern=pat, demand_model=demand_model, minimum_pressure=pmin,
+                  required_pressure=preq, inpfile_pressure_units=None, hydraulics=None, hydraulics_filename=None, inpfile_units=units.name, **hv)
+        qw = _Bag(parameter=qpar, trace_node=(cx.name("trace_node") if qpar == "TRACE" else None), chemical_name=(cx.name("chemical") if qpar == "CHEMICAL" else "CHEMICAL"),
+                  inpfile_units=(qextra or "mg/L"), **qv)
+        if qpar == "CHEMICAL":
+            from pyvc.values import NameSort, name_const
+            up = z3.Function("upper_case", NameSort, NameSort)
+            for kw_ in ("NONE", "AGE", "TRACE"):          # requires: the chemical is not named like a quality mode (the INP syntax cannot tell them apart)
+                cx.assume(up(cx.t(qw.chemical_name)) != name_const(kw_))
+        # the reader's model starts from the defaults of a new WaterNetworkModel
+        hr = _Bag(headloss=None, trials=None, unbalanced=None, unbalanced_value=None, pattern=None, demand_model="DDA", minimum_pressure=0.0, required_pressure=0.07,
+                  inpfile_pressure_units=None, hydraulics=None, hydraulics_filename=None, inpfile_units=None, **{k: (0 if k in ("headerror", "flowchange", "damplimit") else None) for k in _OPT_FLOATS_H})
+        hr.pressure_exponent = 0.5
+        qr = _Bag(parameter="NONE", trace_node=None, chemical_name="CHEMICAL", inpfile_units="mg/L", **{k: None for k in _OPT_FLOATS_Q})
+        tm = _Bag(report_timestep=3600, hydraulic_timestep=3600)
+        wnw = _Bag(options=_Bag(hydraulic=hw, quality=qw, time=tm, graphics=_Bag(map_filename=None)))
+        wnr = _Bag(options=_Bag(hydraulic=hr, quality=qr, time=tm, graphics=_Bag(map_filename=None)))
+        inpw, inpr = _inp(units, wnw), _inp(FlowUnits.SI if units is not FlowUnits.SI else FlowUnits.GPM, wnr)     # the reader learns the unit from the UNITS line
+        inpr.fields["mass_units"] = None
+        cx.target(_options_roundtrip, inpw, inpr, wnw, version)
+
+        def post(out):
+            if not out.returned:
+                return []
+            kp = hyd_spec(HydParam.Pressure, units, False)[0]
+            posts = [("flow_unit_of_the_file_announced_and_read_back", inpr.fields["flow_units"] is units and hr.inpfile_units == units.name),
+                     ("headloss_formula_kept", hr.headloss == "H-W"),
+                     ("trials_round_trip", _eqn(hr.trials, trials) if hr.trials is not None else False),
+                     ("unbalanced_policy_round_trips", hr.unbalanced == ub and (hr.unbalanced_value == ubv)),
+                     ("default_pattern_kept", isinstance(hr.pattern, SV) and hr.pattern.t.eq(pat.t))]
+            lost_in_20 = ("headerror", "flowchange") if version == 2.0 else ()
+            pda = demand_model in ("PDA", "PDD")
+            for k in _OPT_FLOATS_H:
+                if k in lost_in_20 or (k == "pressure_exponent" and not (pda and version != 2.0)):
+                    continue
+                got = getattr(hr, k)
+                if k in ("headerror", "flowchange", "damplimit"):
+                    posts.append(("%s_round_trips_zero_meaning_not_written" % k, _eqn(got, hv[k])))
+                else:
+                    posts.append(("%s_round_trips" % k, _eqn(got, hv[k]) if got is not None else False))
+            for k in _OPT_FLOATS_Q:
+                got = getattr(qr, k)
+                posts.append(("%s_round_trips" % k, _eqn(got, qv[k]) if got is not None else False))
+            if pda and version != 2.0:
+                posts.append(("demand_model_kept", hr.demand_model == demand_model))
+                posts.append(("minimum_pressure_round_trips_as_a_pressure", _eqn(hr.minimum_pressure, pmin)))
+                lim = real_val(0.1) * real_val(kp)
+                posts.append(("required_pressure_round_trips_as_a_pressure_clamped_to_epanet_s_lower_limit",
+                              z3.If(Rr(preq) >= lim, Rr(hr.required_pressure) == Rr(preq), _within(Rr(hr.required_pressure), lim, 1e-9))))
+                toks = [ln[1].tokens() for ln in inpr.fields["sections"]["[OPTIONS]"] if isinstance(ln[1], SymStr)]
+                mp = [t for t in toks if t[:2] == ["MINIMUM", "PRESSURE"]]
+                posts.append(("minimum_pressure_written_in_psi_or_metres", _within(Rr(mp[0][2]) * real_val(kp), Rr(pmin), 1e-6) if len(mp) == 1 else False))
+            else:
+                posts.append(("demand_driven_model_left_alone", hr.demand_model == "DDA"))
+            if qpar == "TRACE":
+                posts.append(("trace_node_kept", qr.parameter == "TRACE" and isinstance(qr.trace_node, SV) and qr.trace_node.t.eq(qw.trace_node.t)))
+            elif qpar == "CHEMICAL":
+                posts.append(("chemical_name_and_mass_unit_kept", qr.parameter == "CHEMICAL" and isinstance(qr.chemical_name, SV) and qr.chemical_name.t.eq(qw.chemical_name.t)
+                              and inpr.fields["mass_units"] is (MassUnits.ug if "ug" in qw.inpfile_units else MassUnits.mg) and qr.inpfile_units == qw.inpfile_units))
+            else:
+                posts.append(("quality_parameter_kept", qr.parameter == qpar))
+            return posts
+        cx.ensure(post)
+    return Case("%s,%s,%s,unbalanced=%s,%s" % (units.name, version, demand_model, unbalanced[0], "/".join(str(x) for x in quality if x)), build, crosscheck=False)
+
+
 # ---------------------------------------------------------------------------- simple controls: [CONTROLS] lines
 
 def _token_models():
@@ -1233,6 +1325,12 @@ CONTRACTS = [
     Contract("wntr.epanet.io:InpFile._write_patterns/_read_patterns", P + ["C20"], [_patterns_case(k_) for k_ in (1, 5, 6, 7, 12, 13)],
              interpret_always=(_patterns_roundtrip,), models=_token_models,
              trusted=_pair_trust + ["token model applied to '{:f}' (six decimals): the text round-off of multipliers is decided in the bounded layer only"]),
+    Contract("wntr.epanet.io:InpFile._write_options/_read_options", P + ["C03"],
+             [_options_case(u, v_, dm, ub_, q_) for u in _U for (v_, dm, ub_, q_) in ((2.2, "PDA", ("STOP", None), ("NONE", None)), (2.2, "DDA", ("CONTINUE", 10), ("CHEMICAL", "ug/L")),
+                                                                                (2.0, "PDA", ("STOP", None), ("AGE", None)), (2.2, "PDD", ("CONTINUE", 10), ("TRACE", None)),
+                                                                                (2.0, "DDA", ("STOP", None), ("CHEMICAL", "mg/L")))],
+             interpret_always=(_options_roundtrip,), models=_token_models,
+             trusted=_pair_trust + ["token model applied to '{:.2f}' (minimum / required pressure): the text round-off is decided in the bounded layer only"]),
     Contract("wntr.epanet.io:InpFile._write_quality/_read_quality", P, [_quality_case(u, par, mu) for u in (FlowUnits.GPM, FlowUnits.LPS, FlowUnits.CMH)
                                                                         for par in ("CHEMICAL", "AGE", "TRACE", "NONE") for mu in (MassUnits.mg, MassUnits.ug)],
              interpret_always=(_roundtrip_call,), trusted=_pair_trust),
